@@ -1385,7 +1385,9 @@ def op_txt_write(scn):
                 text = f.read()
         except Exception as e:
             text = {"unreadable": type(e).__name__}
-    return {"text": text if ok else "ERR"}
+    if not ok or not isinstance(text, str):
+        return {"text": text if ok else "ERR"}
+    return {"text": text, "_inject": {"actual": text}}
 
 
 @op("txt_read")
